@@ -653,6 +653,10 @@ fn gen07_body(b: &mut Builder, r: &mut Rng, kind: MacroKind, var: &str, n: usize
             if inner_var != var {
                 args.push(E::var(var));
             }
+            // two macros deep, a value bound by the caller is still visible
+            if r.chance(1, 2) {
+                args.push(b.bound(any_value(r)));
+            }
             let ib = b.cb(sc, args);
             let mut bodies = vec![ib];
             if inner_kind == MacroKind::MapIf {
